@@ -1736,11 +1736,12 @@ def GET_EYE(
         # and crossing amplitude
         cond = (input > v25) & (input < v75)
 
-        ty = np.vstack([t[cond], input[cond]]).T
+        # amplitudes are normalized to the eye amplitude so that the clustering does not depend on the units of `y`
+        ty = np.vstack([t[cond], (input[cond] - state_0) / d01]).T
 
         # We get centroids of 2 clusters for t,y
         kmeans.fit(ty)
-        ty_c = kmeans.cluster_centers_
+        ty_c = kmeans.cluster_centers_ * [1, d01] + [0, state_0]
 
         left = np.argmin(ty_c[:,0])
         right = np.argmax(ty_c[:,0])
